@@ -444,6 +444,9 @@ func c11Rns(r *RunCtx) error {
 		// every other RNS message: it may write the signer's own pointer (a registration does), never anybody else's —
 		// e.g. a transfer is signed by the sender only and must not touch the receiver's pointer
 		others := []sdk.Msg{
+			// a receiver that has never signed or received anything (certainly no pointer), a name registered for the purpose
+			&rnstypes.MsgRegisterName{Creator: Acct(1).String(), Name: "golf.jkl", Years: 1, Data: "{}", SetPrimary: false},
+			&rnstypes.MsgTransfer{Creator: Acct(1).String(), Name: "golf.jkl", Receiver: Acct(9).String()},
 			&rnstypes.MsgTransfer{Creator: Acct(1).String(), Name: "alpha.jkl", Receiver: Acct(4).String()}, // 4 has no pointer yet
 			&rnstypes.MsgRegisterName{Creator: Acct(4).String(), Name: "echo.jkl", Years: 1, Data: "{}", SetPrimary: false},
 			&rnstypes.MsgTransfer{Creator: Acct(4).String(), Name: "echo.jkl", Receiver: Acct(2).String()},
